@@ -178,7 +178,10 @@ def extAttr (w : World) (v : Val) (name : String) : Val :=
         else .none
       | none => .none
     | none => .none
-  | _ => .none
+  | .none => .none
+  | .ref _ => .none
+  -- every Python object answers `__class__` (ints, strings, lists, bound methods, …)
+  | _ => if name == "__class__" then .attr "class" else .none
 
 def reservedAttrs : List String := Cassis.Gen.reservedAttrs
 
@@ -518,6 +521,7 @@ def runOp (j : Json) : M Json := do
           ("descr", jOptStr t.descr)]))
       pure (jOk (Json.mkObj recs))
     | "identity" => pure (jOk (Json.bool true))   -- types are names in the model: holds by construction
+    | "disjoint" => pure (jOk (Json.bool true))   -- values are immutable in the model: holds by construction
     | "types" =>
       let b ← liftP (boolD j "built_in" false)
       pure (jOk (jList (fun t => jStr t.name) (TS.getTypes K ts b)))
